@@ -5,7 +5,7 @@ func init() {
 		ID:    "C14",
 		Level: "fault_enumeration",
 		Rule: "one evaluation = one decode of one strict prefix (crash point) of a generated valid file under one seeded delivery schedule; " +
-			"per file every cut 0..len-1 is enumerated (ASCII bodies: every token boundary), files and delivery schedules are sampled from VERIF_SEED; " +
+			"per file every cut 0..len-1 is enumerated (ASCII bodies: every token boundary); about one file in 13 is large (up to ~200 KB) and is cut around the readers' buffer and block boundaries, region boundaries, its first and last 400 bytes and at every 97th position instead; files and delivery schedules are sampled from VERIF_SEED; " +
 			"distinct_nontrivial = number of distinct generated files (by content hash) that were readable complete, had >=1 cut, and whose whole cut space was decoded",
 		Scenarios: []ScenCfg{{Name: "truncated-files", Chunk: 32, QuickRuns: 4800, QuickS: 60, ThoroughRuns: 40000, ThoroughS: 900, Procs: 2, DetQuick: 16, DetThorough: 80}},
 		Assumptions: []string{
